@@ -3,7 +3,7 @@
 From Coq Require Import String.
 From PG Require Import Lib.Str Lib.HtmlEsc Model.TALProg Model.TALProgSpec Model.TALVM Proofs.TALVMFacts
                        Model.TALCompile Proofs.TALCompileFacts Model.TALOut Proofs.TALOutFacts
-                       Model.TALESEval Proofs.TALESEvalFacts.
+                       Model.TALESEval Proofs.TALESEvalFacts Proofs.TALCompileWf.
 Local Open Scope N_scope.
 
 (* After any expansion the caller's context is what it was: for EVERY structurally well-formed
@@ -24,6 +24,18 @@ Theorem C18_context_restored :
       c_sc (cx D mf) = c_sc c /\ sstack D mf = [] /\ pc D mf = length p.
 Proof. exact TALVMFacts.context_restored. Qed.
 Print Assumptions C18_context_restored.
+
+(* ... unconditionally for compiled programs: whatever template the (repaired) compiler accepts, every
+   terminating expansion of it restores the caller's scopes, and the interpreter never gets stuck *)
+Theorem C18_context_restored_compiled :
+  forall (es : list event) (p : program) (t : symtab) (m : macrotab), compile repaired es = COk (p, (t, m)) ->
+  forall (D : Type) (o_cond : D -> cmd -> bool) (o_rep : D -> cmd -> rep_dec) (o_val : D -> cmd -> val_dec)
+         (o_mac : D -> cmd -> mac_dec) (o_upd : D -> nat -> cmd -> D) (fuel : nat) (c : ctx) (d : D),
+    vm_run p t (all_subs p m) D o_cond o_rep o_val o_mac o_upd fuel c d <> Stuck /\
+    forall mf, vm_run p t (all_subs p m) D o_cond o_rep o_val o_mac o_upd fuel c d = Done mf ->
+      c_sc (cx D mf) = c_sc c /\ sstack D mf = [] /\ pc D mf = length p.
+Proof. exact TALCompileWf.context_restored_compiled. Qed.
+Print Assumptions C18_context_restored_compiled.
 
 (* ... and the only names an expansion can add to the globals are those of explicit `global`
    defines of the template (plus the built-in slots `repeat` and `attrs`, which exist already). *)
